@@ -219,9 +219,61 @@ def history_independence(chk):
                                             "expected": repr(direct(bad[1]))})
 
 
+def existing_models(chk):
+    """`returns a model tree` for inputs that already contain models: a model whose children are models may still hold raw values
+    further down (models are built from arbitrary Python values); every node of the result is a model, the result evaluates to the
+    value, and a cycle that passes through such a model is still detected."""
+    M = hm
+
+    def all_models(m):
+        return isinstance(m, M.Object) and (not isinstance(m, M.Sequence) or all(all_models(x) for x in m))
+    cases = {
+        "List of a Tuple of raw values": (lambda: M.List([M.Tuple([1, "a"])]), [(1, "a")]),
+        "Tuple of a List of a List of raw values": (lambda: M.Tuple([M.List([M.List([None, 2.5])])]), ([[None, 2.5]],)),
+        "Dict model whose value is a List model of raw values": (lambda: M.Dict([M.String("k"), M.List([M.List([1])])]), {"k": [[1]]}),
+        "Set model of a Tuple model of raw values": (lambda: M.Set([M.Tuple([M.Tuple([1, 2])])]), {((1, 2),)}),
+        "raw list holding such a model": (lambda: [M.List([M.Tuple([b"b", True])])], [[(b"b", True)]]),
+        "List model whose children are models down to depth 3": (lambda: M.List([M.List([M.List([M.List([7])])])]), [[[[7]]]]),
+        "Expression holding a List of a Tuple of raw values": (lambda: M.Expression([M.Symbol("quote"), M.List([M.Tuple([1])])]), None),
+    }
+    for what, (mk, want) in cases.items():
+        try:
+            m = hy.as_model(mk())
+            ok = all_models(m)
+            det = repr(m)[:200]
+            if ok and want is not None:
+                back = hy.eval(m, module=types.ModuleType("hv_c29e"))
+                ok = back == want
+                det = f"evaluates to {back!r}, expected {want!r}"
+        except Exception as e:  # noqa: BLE001
+            ok, det = False, f"{type(e).__name__}: {e}"[:200]
+        chk.case(("existing", what))
+        chk.ob(f"existing-models/{what}: every node of the result is a model and it evaluates to the value", ok, "rtc", "bounded", detail=det,
+               replay=None if ok else {"confirmed": True, "input": "hy.as_model of a " + what, "observed": det})
+    # cycles through existing models
+    for what, mk in {"List model > Tuple model > raw list > back": lambda l: M.List([M.Tuple([l])]),
+                     "Dict model > List model > raw list > back": lambda l: M.Dict([M.String("k"), M.List([l])])}.items():
+        l = [1]
+        m = mk(l)
+        l.append(m)
+        try:
+            hy.as_model(m)
+            got = "returned"
+        except HyWrapperError:
+            got = "HyWrapperError"
+        except RecursionError:
+            got = "RecursionError"
+        after = hy.as_model([1, (2,)]) == M.List([M.Integer(1), M.Tuple([M.Integer(2)])])
+        chk.ob(f"existing-models/cycle {what}: HyWrapperError, and as_model keeps working", got == "HyWrapperError" and after, "rtc", "bounded",
+               detail=f"{got}; afterwards ok={after}",
+               replay=None if got == "HyWrapperError" and after else {"confirmed": True, "input": "l = [1]; m = " + what + "; l.append(m); hy.as_model(m)",
+                                                                      "observed": got, "expected": "HyWrapperError"})
+
+
 def run(chk):
     targets.c29(chk)
     structure(chk)
+    existing_models(chk)
     history_independence(chk)
     roundtrip(chk)
     from hv.pyvc import engine
